@@ -91,7 +91,7 @@ fn parse_attr<T: ParseAttribute>(attr: &syn::Attribute, target: &mut T) -> Resul
     // Parse the whole attribute before creating the accumulator, so that a syntax
     // error can be returned directly.
     let data = parse_attribute_to_meta_list(attr)?;
-    let items = NestedMeta::parse_meta_list(data.tokens)?;
+    let items = NestedMeta::parse_meta_list_of(&data)?;
 
     let mut errors = Error::accumulator();
     for item in items {
